@@ -25,9 +25,6 @@ CONSTANTS NStrata, Stratum, KFull, KStrata, KStratum
 VARIABLES fam, verb, v, chars, st
 vars == <<fam, verb, v, chars, st>>
 
-PNumJ(n) == [t |-> n.t, neg |-> n.neg, d |-> n.d, x |-> n.x]
-PValJ(a) == [tag |-> a.tag, s |-> a.s, n |-> PNumJ(a.n)]
-ArgsJ(args) == [j \in 1..Len(args) |-> PValJ(args[j])]
 \* (the JSON text is built before PrintT is entered: PrintT evaluates its argument under a lock)
 Out(rec) == LET j == ToJson(rec) IN Len(j) > 0 /\ PrintT(j)
 Judged(r, alts) == ~IsUnmStr(r.out) /\ \A q \in alts : ~IsUnmStr(q.out)
@@ -39,19 +36,13 @@ Init == \/ fam = "d" /\ verb \in Verbs /\ v \in ArgsFor(verb) /\ chars \in Modes
         \/ fam = "p" /\ verb = 0 /\ v \in PrintLists /\ chars = FALSE /\ st = 0
         \/ fam = "v" /\ verb = 0 /\ v \in {VNum(n1) : n1 \in PrintNums} /\ chars = FALSE /\ st = 0
 
-ConvNum(vb, a) == IF vb \in IntVerbs \cup UnsVerbs \/ vb = c_c THEN IntArg(a) ELSE ToNum(a, GoawkDialect)
-
 DirCase(family, flags, wi, pi) ==
   LET d == MkDir(flags, wi, pi, verb)
       args == CaseArgs(wi, pi, v)
       f == CaseFmt(d)
   IN \E r \in {Format(f, args, chars, Cf6)} : \E alts \in {FormatAlts(f, args, chars, Cf6)} :
        IF ~Judged(r, alts) THEN TRUE ELSE          \* (IF, not \/: TLC explores both sides of a disjunction)
-       Out([fam |-> family, fmt |-> f, args |-> ArgsJ(args), chars |-> chars, verb |-> verb,
-            flags |-> FlagText(flags), wk |-> d.wk, pk |-> d.pk, ub |-> UbFlags(d),
-            cn |-> PNumJ(ConvNum(verb, v)), cs |-> (IF verb = c_s THEN ToStr(v, Cf6) ELSE <<>>),
-            isnum |-> ArgIsNumber(v, GoawkDialect), alts |-> alts,
-            err |-> r.err, out |-> r.out])
+       Out(CallJ(family, f, d, args, chars, r, alts))
 PickD ==
   /\ fam = "d" /\ st = 0 /\ st' = 1
   /\ \E flags \in SUBSET FlagChars : \E wi \in 1..Len(WOpts) : \E pi \in (IF verb = c_c THEN {1} ELSE 1..Len(POpts)) :
@@ -76,7 +67,7 @@ PickQ ==
   /\ \E rs \in {RunResults(v, 1, chars)} :
        IF RunOpen(v) \/ \E k \in 1..Len(rs) : IsUnmStr(rs[k].out) THEN TRUE ELSE
        Out([fam |-> "q", chars |-> chars,
-            calls |-> [k \in 1..Len(rs) |-> [fmt |-> v[k].f, args |-> ArgsJ(v[k].a), err |-> rs[k].err, out |-> rs[k].out]]])
+            calls |-> [k \in 1..Len(rs) |-> CallJ("k", v[k].f, DirOf(v[k].f), v[k].a, chars, rs[k], {})]])
   /\ UNCHANGED <<fam, verb, v, chars>>
 PickP ==
   /\ fam = "p" /\ st = 0 /\ st' = 1
